@@ -27,8 +27,10 @@ _LOCAL = threading.local()
 class Scheduler:
     """Baton passing: one thread runs at a time, up to its next switch point."""
 
-    def __init__(self, schedule, nthreads):
+    def __init__(self, schedule, nthreads, round_robin=False):
         self.schedule = list(schedule)
+        self.round_robin = round_robin
+        self.last = -1
         self.cv = threading.Condition()
         self.turn = None
         self.parked = set()
@@ -68,8 +70,12 @@ class Scheduler:
                 if self.schedule:
                     choice = self.schedule.pop(0)
                     tid = alive[choice % len(alive)]
+                elif self.round_robin:          # schedule used up: strict alternation at every switch point
+                    later = [t for t in alive if t > self.last]
+                    tid = later[0] if later else alive[0]
                 else:
                     tid = alive[0]              # schedule used up: run the threads to completion in order
+                self.last = tid
                 self.turn = tid
                 self.cv.notify_all()
 
@@ -101,13 +107,16 @@ def _csync(k):
 
 def small_ledger(variant=0):
     opens = ledger.opens()
-    t1 = ledger.txn(datetime.date(2019, 1, 2), [ledger.posting('Assets:Bank', D('1000.00'), 'USD'),
+    t1 = ledger.txn(datetime.date(2019, 1, 2), [ledger.posting('Assets:Cash' if variant else 'Assets:Bank', D('1000.00'), 'USD'),
                                                 ledger.posting('Income:Salary', D('-1000.00'), 'USD')], narration='salary', lineno=20)
-    t2 = ledger.txn(datetime.date(2019, 1, 10), [ledger.posting('Expenses:Food', D('12.50') + variant, 'USD'),
-                                                 ledger.posting('Assets:Bank', D('-12.50') - variant, 'USD')],
+    t2 = ledger.txn(datetime.date(2019, 1, 10), [ledger.posting('Expenses:Books' if variant else 'Expenses:Food',
+                                                                D('12.50') + variant, 'USD'),
+                                                 ledger.posting('Assets:Cash' if variant else 'Assets:Bank',
+                                                                D('-12.50') - variant, 'USD')],
                     narration='lunch', flag='!', lineno=21)
     t3 = ledger.txn(datetime.date(2019, 2, 1), [ledger.posting('Expenses:Food', D('8.00'), 'USD'),
-                                                ledger.posting('Liabilities:Card', D('-8.00'), 'USD')], narration='dinner', lineno=22)
+                                                ledger.posting('Assets:Cash' if variant else 'Liabilities:Card', D('-8.00'), 'USD')],
+                    narration='dinner', lineno=22)
     return opens + [t1, t2, t3]
 
 
@@ -121,6 +130,7 @@ STATEMENTS = [
     ('SELECT csync(2) AS k, ysync(account) AS a FROM #accounts', None),
     ('SELECT ysync(account) AS a, ysync(sum(number)) AS s, first(narration) AS f, last(date) AS l GROUP BY a', None),
     ('SELECT DISTINCT ysync(flag) AS f, csync(3) AS k ORDER BY f', None),
+    ('SELECT ysync(account) AS a, other_accounts, ysync(number) AS n, other_accounts AS o2, tags, ysync(payee) AS p', None),
 ]
 
 
@@ -139,9 +149,9 @@ def _serial(entries, stmt, key=None):
     return result
 
 
-def _concurrent(stmts, schedule, shared, ledgers):
+def _concurrent(stmts, schedule, shared, ledgers, round_robin=False):
     nthreads = len(stmts)
-    sched = Scheduler(schedule, nthreads)
+    sched = Scheduler(schedule, nthreads, round_robin)
     if shared:
         conn = ledger.connect(list(ledgers[0]), ledger.default_options())
         conns = [conn] * nthreads
@@ -173,10 +183,10 @@ def _concurrent(stmts, schedule, shared, ledgers):
     return results
 
 
-def _check(pair, schedule, shared, two_ledgers):
+def _check(pair, schedule, shared, two_ledgers, round_robin=False):
     stmts = [STATEMENTS[k] for k in pair]
     ledgers = [small_ledger(0), small_ledger(1)] if two_ledgers else [small_ledger(0)]
-    got = _concurrent(stmts, schedule, shared, ledgers)
+    got = _concurrent(stmts, schedule, shared, ledgers, round_robin)
     if got == 'deadlock':
         return 'harness-deadlock'
     for tid, stmt in enumerate(stmts):
@@ -194,25 +204,26 @@ def make_pair(i, j, shared, quick, thorough, nbits):
           bounds=f'two threads on {"one shared connection" if shared else "two connections (same or different ledgers)"}: '
                  f'"{STATEMENTS[i][0][:70]}..." and "{STATEMENTS[j][0][:70]}..."; every schedule of the first {nbits} switch '
                  'points (a switch point before each row / sub-expression marked with ysync and inside compilation at csync), the '
-                 'rest run to completion in thread order; each result equals its serial result',
+                 'rest either run to completion in thread order or alternate strictly at every remaining switch point; each '
+                 'result equals its serial result',
           symbolic='the schedule (which thread proceeds at each switch point)' + ('' if shared else ', same / different ledger'),
           enumerated='statement pair and connection sharing (one condition each)',
-          params={**{f's{k}': bool for k in range(nbits)}, **({} if shared else {'two': bool})}, group='C20.pair',
+          params={**{f's{k}': bool for k in range(nbits)}, 'tail': bool, **({} if shared else {'two': bool})}, group='C20.pair',
           note='one thread runs at a time (baton passing), so every schedule is a real interleaving at the granularity of the '
                'switch points; finer-grained interleavings (between bytecodes) are outside the bound')
-    def pair(two=False, **kw):
+    def pair(tail, two=False, **kw):
         schedule = [1 if kw[f's{k}'] else 0 for k in range(nbits)]
-        return native(_check, (i, j), schedule, shared, bool(two) and not shared)
+        return native(_check, (i, j), schedule, shared, bool(two) and not shared, bool(tail))
 
 
-_QUICK_PAIRS = [(0, 0), (0, 1), (1, 1), (2, 3), (3, 5), (4, 0), (6, 6), (1, 6), (7, 2), (5, 5), (4, 4)]
+_QUICK_PAIRS = [(0, 0), (0, 1), (1, 1), (2, 3), (3, 5), (4, 0), (6, 6), (1, 6), (7, 2), (5, 5), (4, 4), (8, 8), (8, 0)]
 for _i in range(len(STATEMENTS)):
     for _j in range(len(STATEMENTS)):
         if (_i, _j) in _QUICK_PAIRS:
-            make_pair(_i, _j, True, 300, 900, 8)
+            make_pair(_i, _j, True, 300, 900, 7)
             make_pair(_i, _j, False, 180, 600, 5)
         elif _i <= _j:
-            make_pair(_i, _j, True, None, 900, 8)
+            make_pair(_i, _j, True, None, 900, 7)
 
 
 @cond('C20.triple', quick=None, thorough=1500,
